@@ -130,10 +130,26 @@ class Buf(Decl):
         import z3
 
         n = model.eval(v.n.e, model_completion=True).as_long()
-        n = min(n, 4096)
-        return [model.eval(z3.Select(v.arr, z3.IntVal(i)), model_completion=True).as_long() for i in range(n)]
+        return self._cells(model, v.arr, n)
+
+    @staticmethod
+    def _cells(model, arr, n):
+        import z3
+
+        cell = lambda i: model.eval(z3.Select(arr, z3.IntVal(i)), model_completion=True).as_long()
+        if n <= 4096:
+            return [cell(i) for i in range(n)]
+        # a long buffer (the length is what matters to the counterexample): its length, the first 256 and the last 16
+        # bytes of the model; the bytes in between are zero in the replay
+        return {"len": n, "head": [cell(i) for i in range(256)], "tail": [cell(i) for i in range(n - 16, n)]}
 
     def decode(self, j):
+        if isinstance(j, dict):
+            b = bytearray(j["len"])
+            b[: len(j["head"])] = bytes(j["head"])
+            if j["tail"]:
+                b[-len(j["tail"]):] = bytes(j["tail"])
+            return b
         return bytearray(j)
 
 
@@ -150,8 +166,8 @@ class MBuf(Buf):
     def from_model(self, model, v):
         import z3
 
-        n = min(model.eval(v.n.e, model_completion=True).as_long(), 4096)
-        return [model.eval(z3.Select(v.arr0, z3.IntVal(i)), model_completion=True).as_long() for i in range(n)]
+        n = model.eval(v.n.e, model_completion=True).as_long()
+        return self._cells(model, v.arr0, n)
 
 
 class Flag(Decl):
@@ -468,10 +484,36 @@ def run_native(unit, case, inputs_json, frame=True):
 
         guard = StateGuard()
         guard.snapshot()
+    import signal
+
+    class _NativeTimeout(BaseException):
+        pass
+
+    def _alarm(*_):
+        raise _NativeTimeout()
+
+    # the real code on concrete inputs finishes in milliseconds; a run that is still going after native_timeout seconds
+    # is recorded as an outcome of its own ("does not return"), not waited for (only if no other timer is pending)
+    limit = getattr(unit, "native_timeout", 60)
+    armed = False
+    try:
+        if limit and signal.getitimer(signal.ITIMER_REAL)[0] == 0:
+            old_handler = signal.signal(signal.SIGALRM, _alarm)
+            signal.setitimer(signal.ITIMER_REAL, limit)
+            armed = True
+    except ValueError:  # not the main thread
+        armed = False
     with contextlib.redirect_stdout(io.StringIO()):  # the real code may print (print_data, print_cdb)
         try:
-            val = unit.run(X, case, a)
-            out = Outcome("return", val)
+            try:
+                val = unit.run(X, case, a)
+                out = Outcome("return", val)
+            finally:
+                if armed:
+                    signal.setitimer(signal.ITIMER_REAL, 0)
+                    signal.signal(signal.SIGALRM, old_handler)
+        except _NativeTimeout:
+            out = Outcome("loopbound")
         except V.LoopBound:
             out = Outcome("loopbound")
         except EngineSignal:
